@@ -29,6 +29,40 @@ CLAIMS = {
                 'defects (FC5 value word, FC15 quantity) are listed in known_findings.jsonl.',
         'technique': 'guard/dominance analysis over enumerated paths, interval + affine normal forms (static)',
     },
+    'C09': {
+        'text': 'Enumerates every path through the four execute copies and six send copies of the seven front-ends and decides: '
+                'exactly one send per path except broadcast / ignored absent unit, at most one transport write per send and only '
+                'under should_respond with the bytes of framer.buildPacket, ids copied before send, response classes carry the '
+                'request function/sub-function code, transport writes reachable only through send<-execute<-framer callback, '
+                'per-connection framer creation, processIncomingPacket call signatures, no deferred scheduling on the response path.',
+        'note': 'request.execute may raise any Exception, context lookup NoSuchSlaveException; other statements non-raising. '
+                'Byte-exact output streams over request histories are not decided.',
+        'technique': 'per-path effect counting over interprocedural path enumeration + who-may-call + signature conformance (static)',
+    },
+    'C10': {
+        'text': 'Decides the unit-filter decision table rows the property fixes, that every non-broadcast path executes once against '
+                'context[request.unit_id], that the broadcast branch (iff broadcast_enable and unit 0) iterates context.slaves() once '
+                'each without sending, the gateway exception / silence for absent units, that every receive loop passes '
+                'context.slaves()/context.single and admits unit 0 under broadcast, and the server-context routing/id interval.',
+        'note': 'Non-interference between unit datastores at run time follows from these routing facts plus C05 R2; it is not itself decided.',
+        'technique': 'decision-table enumeration + path routing analysis + sibling agreement (static)',
+    },
+    'C12': {
+        'text': 'Exception-flow containment: in each sync and asyncio receive loop no exception raised by the framer call or the '
+                'transport read can leave the loop, and the handler resets the framer or ends the connection; datastore mutators are '
+                'reachable only through Request.execute <- front-end execute; framers/decoders never touch datastores; framers hold no '
+                'class-level mutable state and every connection owns its framer. Thorough tier cross-checks the Twisted reactor '
+                'containment assumption against the installed Twisted sources.',
+        'note': 'Statements other than the framer call / transport read are treated as non-raising; Twisted containment is an assumption in the quick tier.',
+        'technique': 'exception-flow analysis over enumerated paths + call-graph who-may-call (static)',
+    },
+    'C17': {
+        'text': 'Sibling cross-check: the normalised execute / send / receive-loop summaries of all seven front-end variants are compared '
+                'with the reference (sync stream handler); any divergence in exception->response mapping, id copies, send count, context '
+                'key, should_respond gate, payload source or framer-call arguments is reported. Broadcast rows are exempt (C10).',
+        'note': 'Decides agreement of the code summaries, not byte-identical outputs over histories or interleavings.',
+        'technique': 'cross-checking sibling implementations via path summaries (static)',
+    },
 }
 
 _PENDING = 'check not built yet in this revision (planned, see DESIGN.md §2)'
